@@ -1072,6 +1072,39 @@ AMBIENT_PREFIXES = ("std::env::", "std::time::", "std::thread::", "std::process:
 GENO_BUILDER = "sfs_core::input::genotype::reader::builder::Builder"
 
 
+def bcf_magic_tested_for_both_containers(chk, rule):
+    """Format::detect decides VCF or BCF for compressed and for uncompressed input alike: from each arm of its switch on the compression
+    method a comparison of byte sequences (array / slice equality, starts_with) is reachable.  With the test of one arm gone, the same
+    records give a spectrum in one container and a parse error (BCF bytes read as VCF text) in the other."""
+    f = chk.fn("sfs_core::input::genotype::reader::builder::Format::detect")
+    if f is None:
+        return
+    def is_cmp(t):
+        n = callee_name(t["callee"])
+        return "core::array::equality::" in n or n.endswith("::starts_with") or n.endswith("::ends_with") or "core::slice::cmp::" in n or \
+            ("PartialEq<[" in n and n.endswith("::eq")) or n.endswith("<impl [T]>::eq") or "bcmp" in n or "memcmp" in n
+    cmp_bbs = {b for b, t in f.calls() if is_cmp(t)}
+    # helpers of the same module that compare
+    for b, t in f.calls():
+        h = chk.prog.fn(t["callee"].get("resolved") or t["callee"].get("path") or "")
+        if h is not None and h is not f and "::reader::builder::" in h.path and any(is_cmp(t2) for b2, t2 in h.calls()):
+            cmp_bbs.add(b)
+    arms = None
+    for sb, st in f.switches():
+        s_ = an.switch_subject(f, sb)
+        if s_["kind"] == "discr" and s_.get("root") == 2:
+            arms = (sb, sorted(set(f.succ.get(sb, []))))
+            break
+    if arms is None:
+        # no switch on the compression method itself: a comparison must be passed on the way to every result all the same
+        chk.ob(rule, "Format::detect/magic-tested-for-both-containers", bool(cmp_bbs), f.loc(), "switch on the compression method not found; byte comparisons in the function: %d" % len(cmp_bbs))
+        return
+    sb, tg = arms
+    missing = [f.loc(t_) for t_ in tg if f.term(t_)["k"] != "unreachable" and not (({t_} | f.reachable_from(t_)) & cmp_bbs)]
+    chk.ob(rule, "Format::detect/magic-tested-for-both-containers", len(tg) >= 2 and not missing, f.loc(sb),
+           "from every arm of the switch on the compression method a byte-sequence comparison is reachable (arms: %d, comparisons: %d, arms without one: %s)" % (len(tg), len(cmp_bbs), missing or "none"))
+
+
 def check_C12(chk):
     chk.explanation = (
         "Structural clauses of C12: (a) hash iteration order is never observed: only keyed/size methods are called on HashMap/HashSet values; "
@@ -1086,6 +1119,7 @@ def check_C12(chk):
     c12d(chk)
     import rules_io
     rules_io.buffered_input_capacity(chk, "C12.d")
+    bcf_magic_tested_for_both_containers(chk, "C12.d")
     # shared clause: the sniffers and readers see the same bytes whatever the block layout only if no short read is taken for a full one (C18.a)
     chk.borrow(lambda: rules_io.c18a(chk), "C12.e", 5)
     # the VCF and the BCF reader are siblings: both hand on the decoded sample columns and nothing else, and end / fail alike (C10.e);
